@@ -115,6 +115,66 @@ theorem c03_synchronised (ia ib : Seq) (ma mb : U16) (simultaneous : Bool) (sys0
   exact ⟨hu1, b1, b2, hpos, modLeq_of_off t.snd.iss _ _ (by omega) (by omega) hu1,
     modLeq_of_off t.snd.iss _ _ (by omega) b2 b1⟩
 
+/-- `off base` is injective -/
+theorem eq_of_off_eq {base a b : Seq} (h : off base a = off base b) : a = b := by
+  unfold off at h
+  have : a - base = b - base := BitVec.eq_of_toNat_eq h
+  bv_omega
+
+/-- **Equality at quiescence, sender-side form.**  In every reachable state of the closed system
+    (file header), when endpoint `x` has nothing outstanding — `SND.UNA_x = SND.NXT_x`: everything it
+    ever numbered (SYN, data, FIN) has been acknowledged to it — its peer expects exactly the next
+    sequence number `x` will use: `RCV.NXT_peer = SND.NXT_x`.  (Squeeze of `c03_synchronised`.)
+
+    `_partial`: the clause of DESIGN.md section 8 is phrased on the network side ("when every segment
+    `x` emitted has been delivered"); that form is `C03SynchronisedQuiescentStatement` below. -/
+theorem c03_synchronised_quiescent_partial (ia ib : Seq) (ma mb : U16) (simultaneous : Bool) (sys0 sys : Sys)
+    (h0 : Start ia ib ma mb simultaneous sys0) (hrun : ClosedRun sys0 sys) (hroom : RoomOk sys)
+    (x : SideId) (t u : Tcb) (ht : (sys.side x).tcb = some t) (hu : (sys.side x.peer).tcb = some u)
+    (hs : u.state ≠ .SynSent) (hq : t.snd.una = t.snd.nxt) : u.rcv.nxt = t.snd.nxt := by
+  obtain ⟨h1, h2, _⟩ := c03_synchronised ia ib ma mb simultaneous sys0 sys h0 hrun hroom x t u ht hu hs
+  rw [hq] at h1
+  exact eq_of_off_eq (Nat.le_antisymm h2 h1)
+
+/-- the indices of the history elements a run delivers to side `x` -/
+def deliveredTo (x : SideId) : List Op → List Nat
+  | [] => []
+  | .deliver y i :: ops => if y = x then i :: deliveredTo x ops else deliveredTo x ops
+  | _ :: ops => deliveredTo x ops
+
+/-- every op of the list is an op of the closed system in the state in which it is executed, with
+    room below 2^31 sequence numbers -/
+def ClosedOps : Sys → List Op → Prop
+  | _, [] => True
+  | s, op :: ops => RoomOk s ∧ Op.Closed s op ∧ ∀ s' r, s.step op = .ok (s', r) → ClosedOps s' ops
+
+/-- Equality at quiescence, network-side form (NOT proved).  "When every history element emitted by
+    the peer has been delivered to `x` (in some order, any number of times) and `x`'s reorder heap is
+    empty, `RCV.NXT_x = SND.NXT_peer`."  As it stands the clause needs two more hypotheses, made
+    explicit here: (a) the peer's retransmission queue holds no entry still waiting for its first
+    transmission (`close()` numbers the FIN at once, `segments()` emits it later: in between
+    `SND.NXT_peer` counts a sequence number that is in no history element); (b) whenever a segment was
+    delivered to `x`, `x`'s receive buffer was empty — the text block accepts only what fits
+    (`min unreceived space_available`) and drops the rest of a segment it has taken off the reorder
+    heap, and the advertised window is the constant 65535 whatever is buffered, so with an
+    application that does not read, segments are "delivered" without `RCV.NXT` moving.
+    What a proof needs beyond this branch: the send-window invariant of C17 joined with
+    `c03_synchronised` for every history element (`SEG.SEQ + SEG.LEN =< RCV.NXT_x + 65535`, so nothing
+    delivered is dropped for being beyond the window), an invariant "every delivered element ends at
+    or below `RCV.NXT_x` or is parked in the heap", and the `Chain` invariant of
+    `Lemmas/TcbWindow.lean` extended to the closing states (it is stated only while text can still be
+    segmentized).  The native oracle evaluates the clause at quiescence (`synchronised …` idents). -/
+def C03SynchronisedQuiescentStatement : Prop :=
+  ∀ (ia ib : Seq) (ma mb : U16) (simultaneous : Bool) (sys0 sys : Sys) (ops : List Op) (rs : List Res),
+    Start ia ib ma mb simultaneous sys0 → ClosedOps sys0 ops → sys0.run ops = .ok (sys, rs) → RoomOk sys →
+    ∀ (x : SideId) (t u : Tcb), (sys.side x).tcb = some t → (sys.side x.peer).tcb = some u →
+      t.state ≠ .SynSent → t.incoming.segments = [] →
+      (∀ i σ, sys.nth i = some σ → σ.hdr.srcPort = x.peer.port → i ∈ deliveredTo x ops) →
+      (∀ tr ∈ u.outgoing.retransmit, tr.needsTransmit = true → tr.segment ∈ sys.history) →
+      (∀ k, ∀ sk rk, sys0.run (ops.take k) = .ok (sk, rk) → (∃ i, ops[k]? = some (.deliver x i)) →
+        ∀ tk, (sk.side x).tcb = some tk → tk.incoming.text = []) →
+      t.rcv.nxt = u.snd.nxt
+
 /-! ## non-vacuity -/
 
 /-- a concrete closed run: handshake, three bytes from A to B delivered and acknowledged, a
